@@ -31,6 +31,7 @@ type Solver struct {
 	dead     bool
 	scriptSz int
 	lastDur  time.Duration
+	frames   [][]string
 }
 
 func solverArgs(name string, timeoutMs int) (string, []string) {
@@ -81,6 +82,89 @@ func (s *Solver) preamble() {
 func (s *Solver) Send(cmd string) {
 	s.buf.WriteString(cmd)
 	s.buf.WriteByte('\n')
+	// mirror of the assertion stack, so that the current context can be replayed one-shot on another solver
+	if len(s.frames) == 0 {
+		s.frames = [][]string{nil}
+	}
+	switch {
+	case cmd == "(push 1)":
+		s.frames = append(s.frames, nil)
+	case cmd == "(pop 1)":
+		if len(s.frames) > 1 {
+			s.frames = s.frames[:len(s.frames)-1]
+		}
+	case strings.HasPrefix(cmd, "(set-option") || strings.HasPrefix(cmd, "(set-logic") || strings.HasPrefix(cmd, "(echo") || strings.HasPrefix(cmd, "(check-sat") || strings.HasPrefix(cmd, "(get-value") || cmd == "(reset)":
+	default:
+		s.frames[len(s.frames)-1] = append(s.frames[len(s.frames)-1], cmd)
+	}
+}
+
+// Context returns the current assertion stack as a flat script (declarations, definitions, assertions).
+func (s *Solver) Context() string {
+	var sb strings.Builder
+	for _, f := range s.frames {
+		for _, l := range f {
+			sb.WriteString(l)
+			sb.WriteByte('\n')
+		}
+	}
+	return sb.String()
+}
+
+// oneShot runs a complete script on a fresh solver process; returns sat/unsat/unknown and the get-value output.
+func oneShot(name string, script string, names []string, timeoutMs int) (string, map[string]string) {
+	var cmd *exec.Cmd
+	full := script + "(check-sat)\n"
+	if len(names) > 0 {
+		full += "(get-value (" + strings.Join(names, " ") + "))\n"
+	}
+	switch name {
+	case "cvc5":
+		cmd = exec.Command("cvc5", "--lang=smt2", "--produce-models", fmt.Sprintf("--tlimit=%d", timeoutMs))
+		full = "(set-logic ALL)\n" + full
+	default:
+		cmd = exec.Command(name, "-in", fmt.Sprintf("-t:%d", timeoutMs))
+		full = "(set-option :model.completion true)\n" + full
+	}
+	cmd.Stdin = strings.NewReader(full)
+	done := make(chan struct{})
+	var out []byte
+	go func() {
+		out, _ = cmd.Output()
+		close(done)
+	}()
+	select {
+	case <-done:
+	case <-time.After(time.Duration(timeoutMs+5000) * time.Millisecond):
+		if cmd.Process != nil {
+			cmd.Process.Kill()
+		}
+		<-done
+		return "unknown", nil
+	}
+	txt := string(out)
+	if strings.Contains(txt, "(error") {
+		// an error on get-value after unsat is expected; anything else is inconclusive
+		if !strings.HasPrefix(strings.TrimSpace(txt), "unsat") {
+			return "unknown", nil
+		}
+	}
+	lines := strings.SplitN(strings.TrimSpace(txt), "\n", 2)
+	res := strings.TrimSpace(lines[0])
+	if res != "sat" && res != "unsat" {
+		return "unknown", nil
+	}
+	vals := map[string]string{}
+	if res == "sat" && len(lines) > 1 {
+		if sx, _, err := parseSexp(lines[1], 0); err == nil {
+			for _, pair := range sx.list {
+				if len(pair.list) == 2 {
+					vals[pair.list[0].String()] = pair.list[1].String()
+				}
+			}
+		}
+	}
+	return res, vals
 }
 
 func (s *Solver) flush() error {
@@ -209,6 +293,7 @@ func (s *Solver) GetValues(names []string) (map[string]string, error) {
 
 func (s *Solver) Reset() {
 	s.Send("(reset)")
+	s.frames = nil
 	s.depth = 0
 	s.preamble()
 }
